@@ -350,7 +350,7 @@ func reaches(from, to, avoid *ssa.BasicBlock) bool {
 		if x == to {
 			return true
 		}
-		if seen[x] || x == avoid {
+		if seen[x] || (x == avoid && x != from) {
 			continue
 		}
 		seen[x] = true
